@@ -119,7 +119,7 @@ def run_case(case):
         err[['north', 'east']] = rng.uniform(1500, 4000, 2) * rng.choice([-1, 1], 2)
         pos_sd = 3000.0
         from pyins import measurements
-        t_fix = S['times'][np.linspace(1, len(S['times']) - 2, 4).astype(int)]
+        t_fix = S['times'][np.unique(np.clip(np.linspace(1, len(S['times']) - 2, 4).astype(int), 0, len(S['times']) - 1))]
         fix = measurements.Position(sim.generate_position_measurements(schedules.truth_at(t_fix), 1.0, 3), 1.0)
         S['measurements'] = [m for m in (S['measurements'] or []) if type(m).__name__ != 'Position'] + [fix]
         S['describe'] = dict(S['describe'], coarse_initial_position=err[['north', 'east']].tolist())
